@@ -733,6 +733,29 @@ impl<'a> PrefixIter<'a> {
 //@end
 }
 
+/// the namespace declarations of the element obey the reserved names (push succeeds): a function of the tag alone
+pub open spec fn push_ok<'a>(e: BytesStart<'a>) -> bool {
+    decls_from(e.buf@, attr_items(State::Next(e.name_len), false, e.buf@), 0) is Ok
+}
+/// what the namespace layer makes of the plain reader's result `ev`: it hands it on unchanged, except that a Start or
+/// Empty tag with a forbidden namespace declaration becomes an error (C14: both serde sources go through here)
+pub open spec fn passes<'i>(ev: Result<Event<'i>>, r: Result<Event<'i>>) -> bool {
+    match ev {
+        Ok(Event::Start(e)) => if push_ok(e) { r == ev } else { r is Err },
+        Ok(Event::Empty(e)) => if push_ok(e) { r == ev } else { r is Err },
+        _ => r == ev,
+    }
+}
+/// one read of the namespace-aware reader, over the LOGICAL input only (C02): the plain reader's step relation
+/// (event_post of T01) followed by `passes`
+pub open(crate) spec fn ns_post<'i>(pre: ReaderState, rem: Seq<u8>, brem: Seq<u8>, post: ReaderState, rem2: Seq<u8>, faulted: bool, r: Result<Event<'i>>) -> bool {
+    exists|ev: Result<Event<'i>>| #[trigger] passes(ev, r) && event_post(pre, rem, brem, post, rem2, ev, faulted)
+        && stack_effect(pre, post, ev) && (ev matches Ok(x) ==> ev_wf(x))
+        && (continues(ev) ==> measure(post, rem2) < measure(pre, rem) && post.offset + rem2.len() <= pre.offset + rem.len())
+        && rem2.len() <= rem.len()
+        && post.config == pre.config
+}
+
 impl<R> NsReader<R> {
 //@extract ns_reader::NsReader::read_event_impl | src/reader/ns_reader.rs :: impl<R> NsReader<R> :: fn read_event_impl | serves=C05
     fn read_event_impl<'i, B>(&mut self, buf: B) -> (r: Result<Event<'i>>)
@@ -749,6 +772,9 @@ impl<R> NsReader<R> {
             // the scope discipline is kept by every successful read
             r is Ok ==> final(self).inv(),
             final(self).reader.state.config == old(self).reader.state.config,
+            // C14: the result is the plain reader's step on the logical input, passed through the namespace check
+            ns_post(old(self).reader.state, old(self).reader.reader.remaining(), old(self).reader.reader.after_bom(),
+                final(self).reader.state, final(self).reader.reader.remaining(), final(self).reader.reader.faults() > old(self).reader.reader.faults(), r),
     {
         self.pop();
         let event = self.reader.read_event_impl(buf);
@@ -804,6 +830,7 @@ impl<R> NsReader<R> {
             final(self).reader == old(self).reader, final(self).ns_resolver.wf(),
             event is Err ==> r is Err,
             r is Ok ==> r == event,
+            passes(event, r),
             r is Ok ==> match event {
                 Ok(Event::Start(_)) => final(self).ns_resolver.nesting_level == old(self).ns_resolver.nesting_level + 1 && !final(self).pending_pop,
                 Ok(Event::Empty(_)) => final(self).ns_resolver.nesting_level == old(self).ns_resolver.nesting_level + 1 && final(self).pending_pop,
@@ -837,7 +864,7 @@ impl<R> NsReader<R> {
 
 impl<R: BufRead> NsReader<R> {
 //@extract ns_reader::NsReader::read_event_into | src/reader/ns_reader.rs :: impl<R: BufRead> NsReader<R> :: fn read_event_into | serves=C05
- fn read_event_into<'b>(&mut self, buf: &'b mut Vec<u8>) -> (r: Result<Event<'b>>)
+ pub(crate) fn read_event_into<'b>(&mut self, buf: &'b mut Vec<u8>) -> (r: Result<Event<'b>>)
         requires
             old(self).inv(),
             !(old(self).reader.state.state is Done) ==> old(self).reader.state.offset + old(self).reader.reader.remaining().len() <= u64::MAX,
@@ -846,13 +873,16 @@ impl<R: BufRead> NsReader<R> {
             old(self).ns_resolver.nesting_level < i32::MAX - 1,
             !old(self).reader.state.config.allow_unmatched_ends,
         ensures r is Ok ==> final(self).inv(),
+            final(self).reader.state.config == old(self).reader.state.config,
+            ns_post(old(self).reader.state, old(self).reader.reader.remaining(), old(self).reader.reader.after_bom(),
+                final(self).reader.state, final(self).reader.reader.remaining(), final(self).reader.reader.faults() > old(self).reader.reader.faults(), r),
  {
         self.read_event_impl(buf)
     }
 //@end
 
 //@extract ns_reader::NsReader::read_to_end_into | src/reader/ns_reader.rs :: impl<R: BufRead> NsReader<R> :: fn read_to_end_into | serves=C05 n11=1
- fn read_to_end_into(&mut self, end: QName, buf: &mut Vec<u8>) -> (r: Result<Span>)
+ pub(crate) fn read_to_end_into(&mut self, end: QName, buf: &mut Vec<u8>) -> (r: Result<Span>)
         requires
             old(self).inv(),
             !(old(self).reader.state.state is Done) ==> old(self).reader.state.offset + old(self).reader.reader.remaining().len() <= u64::MAX,
@@ -890,7 +920,7 @@ impl<R: BufRead> NsReader<R> {
 
 impl<'i> NsReader<&'i [u8]> {
 //@extract ns_reader::NsReader::read_event | src/reader/ns_reader.rs :: impl<'i> NsReader<&'i [u8]> :: fn read_event | serves=C05
- fn read_event(&mut self) -> (r: Result<Event<'i>>)
+ pub(crate) fn read_event(&mut self) -> (r: Result<Event<'i>>)
         requires
             old(self).inv(),
             !(old(self).reader.state.state is Done) ==> old(self).reader.state.offset + old(self).reader.reader.remaining().len() <= u64::MAX,
@@ -899,6 +929,9 @@ impl<'i> NsReader<&'i [u8]> {
             old(self).ns_resolver.nesting_level < i32::MAX - 1,
             !old(self).reader.state.config.allow_unmatched_ends,
         ensures r is Ok ==> final(self).inv(),
+            final(self).reader.state.config == old(self).reader.state.config,
+            ns_post(old(self).reader.state, old(self).reader.reader.remaining(), old(self).reader.reader.after_bom(),
+                final(self).reader.state, final(self).reader.reader.remaining(), final(self).reader.reader.faults() > old(self).reader.reader.faults(), r),
  {
         self.read_event_impl(())
     }
@@ -929,7 +962,7 @@ impl<'i> NsReader<&'i [u8]> {
 //@end
 
 //@extract ns_reader::NsReader::read_to_end | src/reader/ns_reader.rs :: impl<'i> NsReader<&'i [u8]> :: fn read_to_end | serves=C05 n11=1
- fn read_to_end(&mut self, end: QName) -> (r: Result<Span>)
+ pub(crate) fn read_to_end(&mut self, end: QName) -> (r: Result<Span>)
         requires
             old(self).inv(),
             !(old(self).reader.state.state is Done) ==> old(self).reader.state.offset + old(self).reader.reader.remaining().len() <= u64::MAX,
